@@ -152,3 +152,9 @@ impl GoingAway {
         self.reason
     }
 }
+
+#[cfg(feature = "verif")]
+#[allow(missing_docs, dead_code, unused_imports)]
+pub(crate) mod verif_h {
+    include!(concat!(env!("H2_VERIF_DIR"), "/harness/proto/go_away.rs"));
+}
